@@ -436,6 +436,14 @@ sa_addr_port_from_str(sockaddr_storage_p addr,
 
 	ptm = mem_rchr(buf, buf_size, ':'); /* Addr-port delimiter. */
 	ptm_end = mem_rchr(buf, buf_size, ']'); /* IPv6 addr end. */
+	/* AF_UNIX path has no port: ':' is an ordinary path character. */
+	for (i = 0; i < buf_size &&
+	    (' ' == buf[i] || '\t' == buf[i] || '[' == buf[i]); i ++)
+		;
+	if (i < buf_size && ('/' == buf[i] || '.' == buf[i])) {
+		ptm = NULL;
+		ptm_end = NULL;
+	}
 	if (NULL != ptm &&
 	    ptm > buf &&
 	    ':' != (*(ptm - 1))) { /* IPv6 or port. */
